@@ -2941,6 +2941,12 @@ def groupby_reduce(
             result = result[..., ~mask]
             groups_ = groups_[..., ~mask]
 
+        if method == "blockwise" and len(pd.unique(groups_.reshape(-1))) != groups_.size:
+            raise ValueError(
+                "method='blockwise' requires that all members of a group lie within a single block. "
+                "Rechunk the array (see rechunk_for_blockwise) or use method='map-reduce' or 'cohorts'."
+            )
+
         # This reindex also handles bins with no data
         result = reindex_(
             result,
